@@ -1,2 +1,205 @@
-def add_obligations(pack, ss, tier):
-    pass
+"""Function part of C02: positional binding of generated results to variables, argument lookup by name, staleness gate."""
+import z3
+
+from pyvc.symex import Contract, Loop, spec, View, to_z3, as_real
+from pyvc.symval import (TArr, TBool, TInt, TObj, TOpaque, TReal, TSeq, TStr, TConst, NR, fresh, I, R, Bo, Func, Opaque, Module, Ref,
+                         ArrC, ListC, DictC, MapC, TMap, Unsupported, Obj, TColl, Coll, SeqC)
+from contracts.packutil import run_contracts
+
+FM = 'andes/core/model/model.py'
+FS = 'andes/system.py'
+K = TStr.sort
+
+
+def fg_update(pid, which):
+    """Model.f_update / g_update: element i of the generated function's result goes to the i-th variable of
+    states_and_ext / algebs_and_ext (declaration order): added for in-place equations, assigned otherwise."""
+    coll = {'f': 'self.cache.states_and_ext', 'g': 'self.cache.algebs_and_ext'}[which]
+    E = coll + '.$e'
+    N = fresh('N', I)
+    RET = z3.Function('generated_result', I, I, R)      # RET(i, k): k-th entry of the i-th returned array
+
+    def call_gen(ex, st, args, kw, node):
+        pack = st.load('self.%s_args' % which)
+        st.ghost['argpack_ok'] = (len(args) == 1 and isinstance(args[0], tuple) and args[0][0] == 'star'
+                                  and isinstance(args[0][1], Opaque) and args[0][1].term.eq(pack.term) and not kw)
+        return ('ret',)
+
+    def getitem(ex, st, args, kw, node):
+        base, sl = args
+        if isinstance(base, tuple) and base and base[0] == 'ret':
+            i = to_z3(ex.ev(sl, st))
+            k = fresh('k', I)
+            return st.new_ref(ArrC(z3.Lambda([k], RET(i, k)), N, None), 'ret_i')
+        return NotImplemented
+
+    def snapshot(v):
+        v.st.ghost['e0'] = v.arr(E + '.e')
+        return True
+
+    def bound(v):
+        if 'e0' not in v.st.ghost:
+            return True
+        e0, e1 = v.st.ghost['e0'], v.arr(E + '.e')
+        i = v.local('$i0') - 1           # the iteration just executed
+        inplace = v.z(E + '.e_inplace')
+        k = fresh('k', I)
+        same_obj = True
+        return z3.ForAll([k], z3.Implies(z3.And(k >= 0, k < N),
+                                         e1.vals[k] == z3.If(inplace, e0.vals[k] + RET(i, k), RET(i, k))))
+    c = Contract(FM, 'Model.%s_update' % which, pid=pid, params={'self': TObj()},
+                 schema={coll: TColl(), E + '.e_inplace': TBool(), E + '.e': TArr(n=N), 'self.flags.%s_num' % which: TConst(False),
+                         'self.blocks': TConst(None), 'self.%s_args' % which: TOpaque('ArgList')},
+                 requires=[('N>=0', lambda v: N >= 0)],
+                 calls={'callable': lambda ex, st, a, k, n: True, 'self.calls.%s' % which: call_gen,
+                        '__getitem__': getitem, 'self.get_inputs': spec(returns=TOpaque('Kw'), name='get_inputs')},
+                 globals_={'callable': Func('callable')},
+                 loops={0: Loop(inv=[('variable-#i-received-result-#i(added-if-in-place,else-assigned)', bound)],
+                                assume=[('snapshot', snapshot)], frame=['$i', '$var', E + '.*', 'loc:' + E + '.e']),
+                        1: Loop(summary=lambda ex, st, node: [(st, None, None)])},
+                 ensures=[('generated-function-called-with-*self.%s_args' % which,
+                           lambda o, n, r: z3.BoolVal(n.st.ghost.get('argpack_ok') is True))], modifies=[])
+    c.star_ok = True
+    c.check_bounds = False
+
+    def pre_state(st):
+        st.heap['self.blocks'] = st.new_ref(DictC({}), 'blocks')
+        st.ghost.pop('e0', None)
+    c.pre_state = pre_state
+    return c
+
+
+def refresh_inputs_arg(pid):
+    """Model.refresh_inputs_arg: argument k of each generated function is the input array stored under the k-th declared
+    argument name (lookup by name, order preserved)."""
+    VAL = z3.DeclareSort('InputArray')
+
+    def post(old, new, res):
+        inp = old.arr('self._input')
+        cl = []
+        for lst, names in (('self.f_args', 'self.calls.f_args'), ('self.g_args', 'self.calls.g_args'), ('self.sns_args', 'self.calls.sns_args')):
+            out, nm = new.arr(lst), old.arr(names)
+            k = fresh('k', I)
+            cl.append(z3.And(out.n == nm.n, z3.ForAll([k], z3.Implies(z3.And(k >= 0, k < nm.n), out.arr[k] == inp.val[nm.arr[k]]))))
+        return z3.And(*cl)
+
+    def names_present(v):
+        inp = v.arr('self._input')
+        cl = []
+        for names in ('self.calls.f_args', 'self.calls.g_args', 'self.calls.sns_args'):
+            nm = v.arr(names)
+            cl.append(z3.ForAll([KQ], z3.Implies(z3.And(KQ >= 0, KQ < nm.n), inp.dom[nm.arr[KQ]])))
+        return z3.And(*cl)
+    c = Contract(FM, 'Model.refresh_inputs_arg', pid=pid, params={'self': TObj()},
+                 schema={'self._input': TMap(K, VAL), 'self.calls.f_args': TSeq(elem=K), 'self.calls.g_args': TSeq(elem=K),
+                         'self.calls.sns_args': TSeq(elem=K), 'self.f_args': TSeq(elem=VAL), 'self.g_args': TSeq(elem=VAL),
+                         'self.sns_args': TSeq(elem=VAL), 'self.calls.__dict__': TOpaque('D')},
+                 requires=[('every-declared-argument-name-is-an-input', names_present)],
+                 calls={'list': lambda ex, st, a, k, n: st.new_ref(ListC([]), 'l'), 'dict': lambda ex, st, a, k, n: st.new_ref(DictC({}), 'd'),
+                        '__objdict__': lambda ex, st, a, k, n: st.new_ref(DictC({}), 'src')},
+                 ensures=[('args[k]=_input[declared_names[k]]', post)],
+                 modifies=['self.*'])
+    return c
+
+
+KQ = z3.Int('kq')
+
+
+def find_stale(pid):
+    """System._find_stale_models: a model is reported stale iff the md5 recorded with its generated code differs from the md5
+    of the model as constructed now."""
+    E = 'self.models.$e'
+
+    def setitem(ex, st, args, kw, node):
+        st.ghost['reported'] = True
+        return None
+
+    def getattr_h(ex, st, args, kw, node):
+        return st.load(E + '.calls.md5')
+
+    def snapshot(v):
+        v.st.ghost['reported'] = False
+        v.st.ghost['in_iter'] = True
+        v.st.ghost.pop('md5now', None)
+        return True
+
+    def inv(v):
+        if not v.st.ghost.get('in_iter'):
+            return True
+        if 'md5now' not in v.st.ghost:
+            return False          # the iteration never asked the model for its current md5
+        rep = v.st.ghost['reported']
+        differs = v.get(E + '.calls.md5').term != v.st.ghost['md5now']
+        rep = rep if z3.is_expr(rep) else z3.BoolVal(bool(rep))
+        return rep == differs
+
+    def get_md5(ex, st, args, kw, node):
+        m = fresh('md5_now', K)
+        st.ghost['md5now'] = m
+        return Opaque(m)
+    c = Contract(FS, 'System._find_stale_models', pid=pid, params={'self': TObj()},
+                 schema={'self.models': TColl(), E + '.calls.md5': TStr(), E + '.class_name': TStr()},
+                 calls={'OrderedDict': lambda ex, st, a, k, n: Opaque(fresh('out', z3.DeclareSort('OutDict'))), '__setitem__': setitem,
+                        'getattr': getattr_h, E + '.get_md5': get_md5},
+                 globals_={'getattr': Func('getattr')},
+                 loops={0: Loop(inv=[('reported-stale<=>recorded-md5-differs-from-current', inv)], assume=[('reset', snapshot)],
+                                frame=['$model', '$calls_md5', E + '.*'])},
+                 ensures=[], modifies=[])
+
+    def pre_state(st):
+        st.ghost.pop('md5now', None)
+        st.ghost.pop('in_iter', None)
+        st.ghost['reported'] = False
+    c.pre_state = pre_state
+    return c
+
+
+def undill(pid):
+    """System.undill: stale generated code is regenerated before use whenever automatic regeneration is allowed; code that
+    could not be loaded is always regenerated."""
+    def load_calls(ex, st, args, kw, node):
+        r = fresh('loaded', Bo)
+        st.ghost['loaded'] = r
+        return r
+
+    def find(ex, st, args, kw, node):
+        n = fresh('n_stale', I)
+        st.assume(n >= 0)
+        st.ghost['n_stale'] = n
+        c = Coll('stale', n, K)
+        st.ghost['stale'] = c
+        return c
+
+    def prepare(ex, st, args, kw, node):
+        st.ghost['prepare'] = st.ghost['prepare'] + [dict(kw)]
+        return None
+
+    def post(old, new, res):
+        g = new.st.ghost
+        loaded, n = g['loaded'], g['n_stale']
+        auto = to_z3(old.local('autogen_stale'))
+        calls = g['prepare']
+        if len(calls) == 0:
+            return z3.And(loaded, z3.Or(z3.Not(auto), n == 0))
+        if len(calls) != 1:
+            return False
+        kw = calls[0]
+        if kw.get('incremental') is True:
+            return z3.And(loaded, auto, n > 0, z3.BoolVal(kw.get('models') is g['stale']))
+        return z3.And(z3.Not(loaded), z3.BoolVal(kw.get('incremental') is False))
+    c = Contract(FS, 'System.undill', pid=pid, params={'self': TObj(), 'autogen_stale': TBool()}, schema={},
+                 ghost_init={'prepare': []},
+                 calls={'self._load_calls': load_calls, 'self._find_stale_models': find, 'self.prepare': prepare,
+                        '<value>.keys': lambda ex, st, a, k, n: Opaque(fresh('keys', K)), '<value>.join': lambda ex, st, a, k, n: 'names'},
+                 ensures=[('regenerate-all-if-not-loaded;regenerate-stale-models-if-allowed;else-nothing', post),
+                          ('returns-True', lambda o, n, r: to_z3(r) == z3.BoolVal(True) if not isinstance(r, bool) else z3.BoolVal(r))],
+                 modifies=[])
+    c.merge = False
+    return c
+
+
+def add_obligations(pack, ss, tier, pid='C02'):
+    pack.trust('generated functions are called with the argument list built by refresh_inputs_arg (star-call)',
+               'Model.get_md5 hashes the declared strings of the model (not decided: that it covers every string the generator '
+               'depends on)')
+    run_contracts(pack, [(fg_update(pid, 'f'),), (fg_update(pid, 'g'),), (refresh_inputs_arg(pid),), (find_stale(pid),), (undill(pid),)])
